@@ -17,6 +17,7 @@ package quickfix
 
 import (
 	"errors"
+	"math"
 	"strconv"
 )
 
@@ -32,15 +33,22 @@ const (
 // atoi is similar to the function in strconv, but is tuned for ints appearing in FIX field types.
 func atoi(d []byte) (int, error) {
 	if len(d) > 0 && d[0] == asciiMinus {
-		n, err := parseUInt(d[1:])
-		return (-1) * n, err
+		n, err := parseMagnitude(d[1:], uint64(math.MaxInt)+1)
+		return -int(n), err
 	}
 
 	return parseUInt(d)
 }
 
 // parseUInt is similar to the function in strconv, but is tuned for ints appearing in FIX field types.
-func parseUInt(d []byte) (n int, err error) {
+func parseUInt(d []byte) (int, error) {
+	n, err := parseMagnitude(d, uint64(math.MaxInt))
+	return int(n), err
+}
+
+// parseMagnitude scans a string of decimal digits. A number above limit is reported as an error
+// rather than returned wrapped around.
+func parseMagnitude(d []byte, limit uint64) (n uint64, err error) {
 	if len(d) == 0 {
 		err = errors.New("empty bytes")
 		return
@@ -52,7 +60,12 @@ func parseUInt(d []byte) (n int, err error) {
 			return
 		}
 
-		n = n*10 + (int(dec) - ascii0)
+		digit := uint64(dec - ascii0)
+		if n > (limit-digit)/10 {
+			return 0, errors.New("value out of range")
+		}
+
+		n = n*10 + digit
 	}
 
 	return
